@@ -117,15 +117,27 @@ impl C17 {
             let g2 = g1.clone().and_then(|t| toml::from_str::<toml::Value>(&t).map_err(|e| e.to_string())).and_then(|x| toml_edit::ser::to_string_pretty(&x).map_err(|e| e.to_string()));
             outs.push(("toml_edit::ser::to_string_pretty", g1, g2));
             let twice = (table.to_string(), table.to_string());
-            (outs, twice)
+            // the library's own equality: the decoded value is the value, whatever order the map kept
+            let eq = if format!("{v:?}").contains("NaN") {
+                None
+            } else {
+                Some(toml::to_string(&v).ok().and_then(|t| toml::from_str::<toml::Value>(&t).ok()).map(|back| (back == v, table.to_string().parse::<toml::Table>().map(|b| b == table).unwrap_or(false))))
+            };
+            (outs, twice, eq)
         });
-        let (outs, twice) = match r {
+        let (outs, twice, eq) = match r {
             Ok(x) => x,
             Err((loc, msg)) => {
                 ctx.violation(&format!("panic:{}", crate::short_loc(&loc)), format!("serializing panicked at {loc}: {msg}"));
                 return;
             }
         };
+        if let Some(Some((a, b))) = eq {
+            ctx.count("library-equality-checks");
+            if !a || !b {
+                ctx.violation("decoded-value-not-equal", format!("`from_str(to_string(v)) == v` is {a}, `table.to_string().parse() == table` is {b} (toml::Value / toml::Table PartialEq) although the decoded data is the same"));
+            }
+        }
         if twice.0 != twice.1 {
             ctx.violation("print-twice-differs", format!("Table printed twice: {:?} vs {:?}", twice.0, twice.1));
         }
